@@ -267,6 +267,11 @@ func checkC07(tier string) int {
 				used = []string{"concurrent-goroutine"}
 				return &alt
 			}
+			if h%2 == 0 && len(base.Txs) > 0 {
+				// every transaction of the block passed this node's mempool check before the block arrived
+				alt.Inject["before:BeginBlock"] = append(alt.Inject["before:BeginBlock"], base.Txs...)
+				used = append(used, "before:BeginBlock")
+			}
 			nb := 2 + irng.Intn(3)
 			for k := 0; k < nb; k++ {
 				b := boundaries[irng.Intn(len(boundaries))]
